@@ -428,7 +428,7 @@ class FXVanillaOption:
         )
 
         if type(v_bumped) is dict:
-            delta = (v_bumped["value"] - v["value"]) / bump
+            delta = (v_bumped["v"] - v["v"]) / bump
         else:
             delta = (v_bumped - v) / bump
 
